@@ -39,6 +39,7 @@ CONSTANTS
     MaxOdd,                 \* at most this many variable-length fields of a shape are off DefLen
     HugeVals,               \* counts / lengths tried by the "huge" perturbation
     BlockMax,               \* block shapes hold 0..BlockMax transactions of BlockPool (0 = tx cases only)
+    BigCounts,              \* long blocks: BigPatterns repeated up to these many transactions ({} = none)
     CSVals,                 \* values of the stand-alone CompactSize cases
     Lenient                 \* FALSE = Bitcoin's rules.  TRUE = a deliberately broken reader (takes
                             \* non-minimal CompactSize and superfluous witness records); Wire_mc must refute it.
@@ -310,10 +311,25 @@ BlockPool == {
     [wit |-> FALSE, ins |-> <<>>, outs |-> <<1, 1>>] }                                       \* "00 02": read as marker + flag 2
 BlockShapes == IF BlockMax = 0 THEN {} ELSE {[txs |-> q] : q \in SeqsUpTo(BlockPool, BlockMax)}
 
+\* Long blocks.  A decoder is free to work through the transactions of a block in batches (lib/btc hashes
+\* them in parallel packs of >= 4096 bytes): many small transactions and a few of 3 - 9 kB, so that the
+\* transaction bytes cross such a boundary never, once and many times, at and away from the last one.
+BigPool == <<
+    [wit |-> FALSE, ins |-> <<In1(1, <<>>)>>, outs |-> <<1>>],                               \* 1  legacy, ~60 bytes
+    [wit |-> TRUE,  ins |-> <<In1(0, <<1>>)>>, outs |-> <<1>>],                              \* 2  segwit, ~65 bytes
+    [wit |-> FALSE, ins |-> <<In1(253, <<>>), In1(0, <<>>)>>, outs |-> <<0, 252>>],          \* 3  legacy, 617 bytes
+    [wit |-> TRUE,  ins |-> <<In1(1, <<>>), In1(1, <<1, 0>>)>>, outs |-> <<1>>],             \* 4  segwit, two inputs
+    [wit |-> FALSE, ins |-> <<In1(3000, <<>>)>>, outs |-> <<1>>],                            \* 5  legacy, ~3 kB
+    [wit |-> TRUE,  ins |-> <<In1(0, <<5000, 1>>)>>, outs |-> <<4096>>] >>                   \* 6  segwit, ~9 kB
+BigPatterns == {<<1, 2, 3, 4>>, <<5, 6>>, <<2, 1, 5>>, <<1>>}
+Cyc(n, pat) == [txs |-> [i \in 1..n |-> BigPool[pat[((i - 1) % Len(pat)) + 1]]]]
+BigBlockShapes == {Cyc(n, pat) : n \in BigCounts, pat \in BigPatterns}
+BigLayout == 150    \* layouts with more tokens are perturbed only at the header, the count and the end
+
 CSShapes == UNION {{[v |-> v, f |-> f] : f \in {g \in Forms : g >= MinForm(v)}} : v \in CSVals}
 
 Shapes == {[kind |-> "tx", tx |-> x, b |-> [txs |-> <<>>], c |-> [v |-> 0, f |-> 1]] : x \in TxShapes}
-     \cup {[kind |-> "block", tx |-> EmptyTx, b |-> x, c |-> [v |-> 0, f |-> 1]] : x \in BlockShapes}
+     \cup {[kind |-> "block", tx |-> EmptyTx, b |-> x, c |-> [v |-> 0, f |-> 1]] : x \in BlockShapes \cup BigBlockShapes}
      \cup {[kind |-> "cs", tx |-> EmptyTx, b |-> [txs |-> <<>>], c |-> x] : x \in CSShapes}
 
 Encode(sh) == IF sh.kind = "tx" THEN EncodeTx(sh.tx)
@@ -336,7 +352,7 @@ InTx(t)    == t.role \notin {"hdr", "ntx"}
 
 Perts(kind, s) ==
     LET full == kind # "block"       \* block layouts are long: a thinner set inside their transactions
-        idx  == 1..Len(s)
+        idx  == IF Len(s) > BigLayout THEN {1, 2, Len(s) - 1, Len(s)} ELSE 1..Len(s)
         cnt  == {j \in idx : IsCount(s[j])}
     IN  IF kind = "cs" THEN {[k |-> "cut", i |-> 1, a |-> a] : a \in 0..(s[1].n - 1)}
         ELSE
@@ -408,10 +424,13 @@ SizeLaws ==
 \* re-encoding what was decoded gives back the consumed bytes, at the layout level: the same number of
 \* bytes and every CompactSize of the re-encoding sits, in the same form with the same value, where the
 \* input has one (so every length prefix the reader used was minimal).
-SameCS(s, e, off) ==
-    \A j \in 1..Len(e) : e[j].k = "C" =>
-        \E i \in 1..Len(s) : /\ Before(s, i) = off + Before(e, j)
-                             /\ s[i].k = "C" /\ s[i].n = s[i].f /\ s[i].f = e[j].f /\ s[i].v = e[j].v
+RECURSIVE CSet(_, _, _, _)
+\* the complete CompactSize tokens of a layout as <<offset, form, value>> triples
+CSet(s, i, off, acc) ==
+    IF i > Len(s) THEN acc
+    ELSE CSet(s, i + 1, off + s[i].n,
+              IF s[i].k = "C" /\ s[i].n = s[i].f THEN acc \cup {<<off, s[i].f, s[i].v>>} ELSE acc)
+SameCS(s, e, off) == CSet(e, 1, off, {}) \subseteq CSet(s, 1, 0, {})
 RECURSIVE TxOffsets(_, _)
 TxOffsets(q, off) == IF Len(q) = 0 THEN <<>> ELSE <<off>> \o TxOffsets(Tail(q), off + Head(q).size)
 ReencodeIdentity ==
